@@ -10,6 +10,7 @@ import RbV.Model.LcskFwd
 import RbV.Model.Lcskpp
 import RbV.Model.Sdpkpp
 import RbV.Model.KmerHash
+import RbV.Model.Expand
 /-! Driver for property C19 (line protocol → verdict).
 
 ```
@@ -360,9 +361,14 @@ def verdictExpand (ks mms xh yh mss out : String) : String :=
       if !strictLex ex then "reject expand-not-strictly-sorted" else
       let exact := ms.all fun m => window k x m.1 == window k y m.2
       let inRange := ex.all fun m => m.1 + k ≤ x.length && m.2 + k ≤ y.length
+      -- mirror model of the expansion (Thm.C19.expand_model_sorted: strictly sorted, keeps the seeds); which positions the
+      -- implementation adds is not fixed by the property ⇒ drift tag
+      let mdl := Model.Expand.expandKmerMatches x y k ms mm
+      if (match mdl with | .ok r => !strictLex r || !(ms.all (r.contains ·)) | .error _ => true) then "bad-op expand-model" else
       match lcsCheck ex k out with
       | (some v, _) => v
       | (none, t1) => "ok" ++ (if ex.length > ms.length then " nt grew" else "") ++ " expand" ++ (if mm = 0 then " mm0" else "")
+          ++ (match mdl with | .ok r => if r = ex then " expand-model-agrees" else " drift-expand-model" | .error _ => "")
           ++ (if exact then " exact-seeds" else "")
           ++ (if !(ms.all (ex.contains ·)) then " drift-lost-a-seed" else "")
           ++ (if !inRange then " drift-out-of-range" else "")
